@@ -278,6 +278,14 @@ def field_stores(ctx: Ctx, c: Cls):
                     if k == "**":
                         # a dict display `{**dump, "field": value}`: its constant keys
                         for dv in alts(v):
+                            # ... or a merge `dump | {"field": value}` (the right operand wins)
+                            while dv[0] == "binop" and dv[1] == "|":
+                                for rv in alts(dv[3]):
+                                    if rv[0] == "dict":
+                                        for kk, vv in rv[1]:
+                                            if kk[0] == "const" and isinstance(kk[1], str):
+                                                yield m, call, kk[1], vv, "model_construct(**)"
+                                dv = dv[2]
                             if dv[0] == "dict":
                                 for kk, vv in dv[1]:
                                     if kk[0] == "const" and isinstance(kk[1], str):
